@@ -113,7 +113,9 @@ def gen_history(rng, hid, confirm=False):
         h["batches"].append({"n": n, "cols": bc, "row_group_offsets": rgo, "compression": rng.choice(CODECS),
                              "pseed": rng.randrange(1 << 30), "iseed": rng.randrange(1 << 30),
                              # an appended frame may list the same columns in another order (schema-compatible; accepted by the library)
-                             "permute": (b > 0 and rng.random() < 0.5)})
+                             "permute": (b > 0 and rng.random() < 0.5),
+                             # the other documented entry point of an append: ParquetFile.write_row_groups
+                             "via": ("write_row_groups" if (b > 0 and not h["index"] and rng.random() < 0.3) else "write")})
     return h
 
 
@@ -292,7 +294,12 @@ def run_history(arg):
                     try:
                         akw = dict(kw)
                         akw.pop("write_index", None)
-                        write(target, df, append=True, open_with=rec.open_with, mkdirs=rec.mkdirs, **akw)
+                        if h["batches"][i].get("via") == "write_row_groups":
+                            ParquetFile(target, open_with=rec.open_with).write_row_groups(
+                                df, row_group_offsets=akw.get("row_group_offsets"), compression=akw["compression"],
+                                open_with=rec.open_with, mkdirs=rec.mkdirs)
+                        else:
+                            write(target, df, append=True, open_with=rec.open_with, mkdirs=rec.mkdirs, **akw)
                     except Exception as e:      # noqa
                         raised = "%s: %s" % (type(e).__name__, str(e)[:200])
                         st["tb"] = traceback.format_exc()[-800:]
@@ -427,6 +434,7 @@ def run(ctx):
     ctx.coq_file(os.path.join(C.COQ, "props", "C07.v"))
     bad = C.hygiene()
     ctx.obligation("hygiene: no Admitted/Axiom/Parameter/... in coq/", not bad, "; ".join(bad))
+    chk = dsfs.coqchk_start(C.COQ, "C07") if not ctx.quick() else None
     C.use_shadow()
     C.pqref()
     rng = ctx.rng
@@ -469,6 +477,8 @@ def run(ctx):
             i = st["step"]
             ctx.case({"h": h, "step": i}, trivial=(i == 0))
             ctx.count("rows_in_step", st["n"])
+            if i > 0:
+                ctx.count("entry_point", h["batches"][i].get("via", "write") + ("+permuted columns" if h["batches"][i].get("permute") else ""))
             short = {"history": h["id"], "scheme": h["scheme"], "step": i}
             if "raised" in st:
                 ctx.count("refused", st["raised"][:60])
@@ -493,8 +503,10 @@ def run(ctx):
                     if st["footer_len"][1] < st["footer_len"][0]:
                         mono_bad.append("history %d step %d: footer %d -> %d bytes" % (h["id"], i, st["footer_len"][0], st["footer_len"][1]))
             else:
-                cmds.append(("safe_trace", [p.encode() for p in st["refs_before"]], dsfs.sx_trace(st["trace"])))
+                cmds.append(("safe_trace_sym", [p.encode() for p in st["refs_before"]], dsfs.sx_trace(st["trace"])))
                 meta.append(("safe", short, st))
+                cmds.append(("safe_trace", [p.encode() for p in st["refs_before"]], dsfs.sx_trace(st["trace"])))
+                meta.append(("strict", short, st))
                 # information (DESIGN 4.2): is the deterministic model trace (Dataset/Ops.v) exactly what the code did?
                 from harness.props.C19 import blocks_of
                 pt, rgs, mdc, cmdc, norm = blocks_of([(c[0], c[1], b"") if c[0] == "write" else c for c in st["trace"]])
@@ -514,6 +526,7 @@ def run(ctx):
         raise RuntimeError("pqref answered %d of %d commands" % (len(outs), len(cmds)))
     model_trace = {"equal": 0, "different": 0, "examples": []}
     seq_model = {"equal": 0, "different": 0, "examples": []}
+    strict = {"true": 0, "false": 0}
     for (kind, short, st), o in zip(meta, outs):
         if kind == "model":
             mt = [[bytes(x) if isinstance(x, (bytes, bytearray)) else x for x in c] for c in o[0]] if isinstance(o, list) and o else o
@@ -527,8 +540,12 @@ def run(ctx):
             ctx.correspondence("CatRead.read_cat(per-row-group dictionaries and codes) = categorical column of the whole read", short,
                                [list(x) for x in o] if isinstance(o, list) else o, st)
             continue
+        if kind == "strict":
+            # information: the stricter relation `safe_trace` (_metadata before _common_metadata), which the code implements today
+            strict["true" if o == 1 else "false"] += 1
+            continue
         if kind == "safe":
-            ok = ctx.correspondence("check_safe_trace(recorded trace of the real append) = true", short, 1, o)
+            ok = ctx.correspondence("check_safe_trace_sym(recorded trace of the real append) = true", short, 1, o)
             if not ok and ctx.broken and "trace" not in ctx.broken[-1]:
                 ctx.broken[-1]["trace"] = dsfs.trace_json(st["trace"], 200)
         elif kind == "rel":
@@ -540,12 +557,16 @@ def run(ctx):
             seq_model["equal" if same else "different"] += 1
             if not same and len(seq_model["examples"]) < 3:
                 seq_model["examples"].append({"case": short, "model": str(model)[:200], "real": [st["loc"], len(st["after"])]})
+    ctx.extra["strict_safe_trace_on_recorded_traces"] = strict
     ctx.extra["append_seq_model_vs_real_bytes"] = seq_model
     ctx.notes.append("Append.append_simple (footer_loc + seq_write of the recorded write chunks) gives byte-exactly the file the real append left in %d of %d "
                      "single-file appends (information, not an obligation)" % (seq_model["equal"], seq_model["equal"] + seq_model["different"]))
     ctx.extra["model_trace_vs_recorded_trace"] = model_trace
     ctx.notes.append("Ops.append_trace equals the recorded call trace (kinds, paths, order; write data ignored) in %d of %d multi-file appends "
                      "(information, not an obligation)" % (model_trace["equal"], model_trace["equal"] + model_trace["different"]))
+
+    if chk is not None:
+        dsfs.coqchk_finish(ctx, chk, "C07")
 
 
 def replay(rep):
